@@ -5,8 +5,8 @@ Driver handlers for property C19 (ANSI decoder / truecolor encoder / FileProxy).
 
 Wire formats
 * string  : space separated decimal code points ("" = empty)
-* flags   : two characters 0/1: intRaises flushRaw   (fields of `Ansi.Cfg`; `sv` is `Variant.fixed`: only
-            the five compared fields of a style are observed, which no `Variant` flag changes)
+* flags   : five characters 0/1: intRaises flushRaw emptyIgnored resetDropsLink offSingle   (fields of `Ansi.Cfg`; `sv` is `StyleVariant.fixed`: only
+            the five compared fields of a style are observed, which no `StyleVariant` flag changes)
 * optstr  : `-` (None) or `=` string
 * color   : `-` (None) or `name/type/number/triplet`, number `-`|n, triplet `-`|r.g.b
 * style   : `color|bgcolor|attributes|set_attributes|link`            (link is an optstr)
@@ -25,7 +25,7 @@ open RichModel RichModel.Proto RichModel.Ansi
 
 def decFlags (s : String) : Option Ansi.Cfg :=
   match s.toList.map (· == '1') with
-  | [a, b] => some ⟨Variant.fixed, a, b⟩
+  | [a, b, c, d, e] => some ⟨StyleVariant.fixed, a, b, c, d, e⟩
   | _ => none
 
 def decOptS (s : String) : Option (Option (List Char)) :=
